@@ -26,7 +26,7 @@ def path_str(p):
 def _match(p, q, strict):
     """do source path p and oracle path q denote overlapping locations?  '[*]' is ignored on both sides; a constant
     index present on only one side is skipped unless `strict` (used for forbidden flows: then it must be explicit)"""
-    p = [x for x in p if x not in ("#cmp", "#d", "[*]")]
+    p = [x for x in p if x not in ("#cmp", "#d", "#sel", "[*]")]
     q = [x for x in q if x != "[*]"]
     i = j = 0
     while i < len(p) and j < len(q):
@@ -63,7 +63,7 @@ def has_flow(srcs, param, inpath, strict=False):
 
 def data_flow_only(srcs):
     """drop sources that arrive only through comparisons / discriminant tests"""
-    return {s for s in srcs if not (s[0] == "param" and ("#cmp" in s[2] or "#d" in s[2]))}
+    return {s for s in srcs if not (s[0] == "param" and ("#cmp" in s[2] or "#d" in s[2] or "#sel" in s[2]))}
 
 
 def check_flows(ctx, rid, f, rows, label=None):
